@@ -386,7 +386,15 @@ func (w *_listpairsIteratorRepr) Next() (index int64, value datamodel.Node, _ er
 		if err != nil {
 			return 0, nil, err
 		}
-		return int64(idx), field, nil
+		// The index is the position in the representation list, where absent fields take no place
+		// (as Length and LookupByIndex have it), not the index of the struct field.
+		pos := 0
+		for j := 0; j < idx; j++ {
+			if !w.fields[j].IsOptional() || !w.val.Field(j).IsNil() {
+				pos++
+			}
+		}
+		return int64(pos), field, nil
 	}
 }
 
